@@ -39,6 +39,10 @@ pub enum Gen {
         sends: Vec<(u8, String)>,
         /// unrelated frames appended between the sends
         noise: u8,
+        /// the first send addressed to the generator carries 6 MiB in front of its letters:
+        /// a large input followed at once by small ones must still come out first
+        #[serde(default)]
+        big_first: bool,
     },
     /// a duplex generator whose pipeline ends after one input (`| take 1`): it stops, is
     /// started again, and the new instance must only see sends appended while *it* runs
@@ -80,8 +84,9 @@ pub fn strategy() -> BoxedStrategy<C18Case> {
         // UTF-8 boundary handling, so shorter sends are merged with the next one)
         proptest::collection::vec((prop_oneof![5 => Just(0u8), 1 => Just(1u8), 1 => Just(2u8)], "[a-z]{5,10}"), 0..=6),
         0u8..3,
+        proptest::bool::weighted(0.15),
     )
-        .prop_map(|(sends, noise)| Gen::Duplex { sends, noise });
+        .prop_map(|(sends, noise, big_first)| Gen::Duplex { sends, noise, big_first });
     (
         0u8..2,
         prop_oneof![
@@ -293,7 +298,7 @@ fn run_in(case: &C18Case, nu: &mut Nu) -> Result<CaseInfo, Fail> {
             }
             labels.push("spawn-for-running-name".into());
         }
-        Gen::Duplex { sends, noise } => {
+        Gen::Duplex { sends, noise, big_first } => {
             let sp = nu.append(
                 "g.spawn",
                 ctx,
@@ -305,12 +310,21 @@ fn run_in(case: &C18Case, nu: &mut Nu) -> Result<CaseInfo, Fail> {
                 return Err(gen_fail("duplex generator did not start within 10 s".into()));
             }
             let mut want: Vec<String> = vec![];
+            let mut big_pending = *big_first;
             for (target, content) in sends {
-                for _ in 0..*noise {
+                // (no noise behind the large send: the next send follows it at once)
+                for _ in 0..(if *big_first && !big_pending { 0 } else { *noise }) {
                     nu.append("noise", ctx, Some(b"n"), None)?;
                 }
                 match target {
                     0 => {
+                        let content = if big_pending {
+                            big_pending = false;
+                            labels.push("large-send-followed-by-small-ones".into());
+                            format!("{}{content}", "a".repeat(6 << 20))
+                        } else {
+                            content.clone()
+                        };
                         nu.append("g.send", ctx, Some(content.as_bytes()), None)?;
                         want.push(format!("hi: {content}"));
                     }
@@ -326,6 +340,53 @@ fn run_in(case: &C18Case, nu: &mut Nu) -> Result<CaseInfo, Fail> {
             nu.append("g.send", ctx, Some(b"final"), None)?;
             want.push("hi: final".into());
             let n = want.len();
+            if *big_first && want.len() >= 2 && want[0].len() > (1 << 20) {
+                // nushell hands a large input to the pipeline in chunks (one `each` element per
+                // chunk), so elements are not sends here: what must hold is that the bytes fed to
+                // the pipeline are the sends' bytes, once each, in order
+                let fed: String = want.iter().map(|w| &w[4..]).collect();
+                let deadline = std::time::Instant::now() + Duration::from_secs(30);
+                let mut last = (0usize, std::time::Instant::now());
+                let frames = loop {
+                    let fr = nu.frames()?;
+                    let cnt = sourced(&fr, &sp.id).iter().filter(|w| w.topic == "g.recv").count();
+                    if cnt != last.0 {
+                        last = (cnt, std::time::Instant::now());
+                    }
+                    if (cnt >= 2 && last.1.elapsed() > Duration::from_millis(400)) || std::time::Instant::now() > deadline {
+                        break fr;
+                    }
+                    std::thread::sleep(Duration::from_millis(10));
+                };
+                let mut got = String::new();
+                for r in sourced(&frames, &sp.id).iter().filter(|w| w.topic == "g.recv") {
+                    let c = nu.content(r.hash.as_ref().unwrap())?;
+                    let c = String::from_utf8_lossy(&c).to_string();
+                    got.push_str(c.strip_prefix("hi: ").unwrap_or(&c));
+                    checks += 1;
+                }
+                if got != fed {
+                    let tail = |s: &str| s[s.len().saturating_sub(40)..].to_string();
+                    return Err(gen_fail(format!(
+                        "duplex generator was fed {} bytes ending {:?}; the sends addressed to it are {} bytes ending {:?} (a large send followed at once by small ones: in order, once each)",
+                        got.len(),
+                        tail(&got),
+                        fed.len(),
+                        tail(&fed)
+                    )));
+                }
+                labels.push("duplex".into());
+                if let Some(p) = nu.panics()?.first() {
+                    return Err(Fail::new(Class::Panic, format!("xs panicked: {p}")));
+                }
+                return Ok(CaseInfo {
+                    nontrivial: true,
+                    shape: hash64(format!("{:?}", case).as_bytes()),
+                    labels,
+                    known: vec![],
+                    checks,
+                });
+            }
             let (frames, ok) = nu.wait(Duration::from_secs(15), |fr| {
                 sourced(fr, &sp.id).iter().filter(|w| w.topic == "g.recv").count() >= n
             })?;
@@ -338,9 +399,16 @@ fn run_in(case: &C18Case, nu: &mut Nu) -> Result<CaseInfo, Fail> {
                 checks += 1;
             }
             if !ok || got != want {
+                let short = |v: &Vec<String>| -> Vec<String> {
+                    v.iter()
+                        .map(|s| if s.len() > 60 { format!("{}..({} bytes)..{}", &s[..12], s.len(), &s[s.len() - 12..]) } else { s.clone() })
+                        .collect()
+                };
                 return Err(gen_fail(format!(
-                    "duplex generator in context {} received sends and produced {got:?}; the sends addressed to it (in order) call for {want:?}",
-                    id_str(ctx)
+                    "duplex generator in context {} received sends and produced {:?}; the sends addressed to it (in order) call for {:?}",
+                    id_str(ctx),
+                    short(&got),
+                    short(&want)
                 )));
             }
             if mine.iter().any(|w| w.topic == "g.stop") {
